@@ -49,14 +49,20 @@ def direct_optimisers(mon, rng):
     n = int(rng.integers(1, 9))
     choices = np.hstack([np.arange(n)[:, None].astype(float), rng.random((n, 2))])
     style = str(rng.choice(["generic", "ties", "negative", "constant"]))
+    # the unit of the acquisition values is arbitrary (variances of objectives measured in tiny or huge units): the arg-max is not
+    unit = float(rng.choice([1.0, 1.0, 1e-13, 1e-30, 1e9]))
+    if unit != 1.0:
+        mon.count("tables_in_tiny_or_huge_units")
+    tol = 1e-12 * unit
+
     def draw(size):
         if style == "ties":
-            return rng.integers(0, 3, size=size).astype(float)
+            return rng.integers(0, 3, size=size).astype(float) * unit
         if style == "negative":
-            return -np.abs(rng.normal(size=size)) - 1
+            return (-np.abs(rng.normal(size=size)) - 1) * unit
         if style == "constant":
             return np.zeros(size)
-        return rng.normal(size=size)
+        return rng.normal(size=size) * unit
     if style in ("ties", "constant"):
         mon.count("tie_tables")
     q = int(rng.choice([1, 2, n, n + 2, max(1, n - 1)]))
@@ -75,7 +81,7 @@ def direct_optimisers(mon, rng):
     want = sorted(vals, reverse=True)[: min(q, n)]
     if len(ids) != min(q, n) or len(set(ids)) != len(ids):
         mon.violation("acq:batch-size" if len(ids) != min(q, n) else "acq:duplicate-in-batch", f"direct joint: picks {ids} for q={q}, n={n}", case)
-    elif np.abs(np.asarray(got) - np.asarray(want)).max() > 1e-12 or np.abs(vals[ids] - np.asarray(got)).max() > 1e-12:
+    elif np.abs(np.asarray(got) - np.asarray(want)).max() > tol or np.abs(vals[ids] - np.asarray(got)).max() > tol:
         mon.violation("acq:not-argmax", f"direct joint: values {got} for picks {ids}, top-q of the table {want}", case)
     if not np.array_equal(np.atleast_2d(cands), choices[ids]):
         mon.violation("acq:candidate-rows-altered", "returned rows differ from the offered rows", case)
@@ -98,7 +104,7 @@ def direct_optimisers(mon, rng):
         mon.violation("acq:evaluation-index-not-restored", f"acquisition evaluation_index left at {acq.evaluation_index}", case)
     if len(pairs) != min(q, n * m) or len(set(pairs)) != len(pairs):
         mon.violation("acq:batch-size" if len(pairs) != min(q, n * m) else "acq:duplicate-in-batch", f"direct decoupled: pairs {pairs} for q={q}, n={n}, m={m}", case)
-    elif np.abs(np.asarray(got) - np.asarray(want)).max() > 1e-12 or any(abs(tv[i, k] - g) > 1e-12 for (i, k), g in zip(pairs, got)):
+    elif np.abs(np.asarray(got) - np.asarray(want)).max() > tol or any(abs(tv[i, k] - g) > tol for (i, k), g in zip(pairs, got)):
         mon.violation("acq:not-argmax", f"direct decoupled: values {got} for pairs {pairs}, top-q of the table {want}", case)
 
 
